@@ -83,6 +83,7 @@ type scen struct {
 	cancelAt  bool          // a cancel event that may fire at any moment
 	slowFirst time.Duration // the first upload stays in flight this long
 	big       bool          // the initial database holds a large secret (so a later delete shrinks the file)
+	reopen    bool          // the database is closed and opened again from its file before the backup task starts
 	horizon   time.Duration
 }
 
@@ -114,6 +115,13 @@ func (sc scen) harness() func() *sched.Harness {
 				d.Put(hx.Super(), "a", []byte("initial"))
 				if sc.big {
 					d.Put(hx.Super(), "big", bytes.Repeat([]byte("0123456789abcdef"), 256))
+				}
+				if sc.reopen {
+					// the server is restarted on an existing database file
+					d, err = db.Open(path, kek, hx.Discard())
+					if err != nil {
+						panic(err)
+					}
 				}
 				b, _ := os.ReadFile(path)
 				versions = append(versions, b)
@@ -282,6 +290,7 @@ func TestCheck(t *testing.T) {
 		{name: "writes at 30s and 100s, uploads may fail", writer: []string{"sleep:30s", "put", "sleep:70s", "put"}, outcomes: []string{"ok", "fail"}, horizon: 460 * time.Second},
 		{name: "cancellation at any moment, one write", writer: []string{"sleep:30s", "put"}, cancelAt: true, horizon: 300 * time.Second},
 		{name: "cancellation at any moment while idle", cancelAt: true, horizon: 200 * time.Second},
+		{name: "idle database opened from an existing file (server restart)", reopen: true, horizon: 200 * time.Second},
 		{name: "file shrinks between uploads (large secret deleted at 30s, put at 100s)", writer: []string{"sleep:30s", "delbig", "sleep:70s", "put"}, big: true, horizon: 400 * time.Second},
 		{name: "first upload in flight for 90s, then an idle database", slowFirst: 90 * time.Second, horizon: 400 * time.Second},
 		{name: "first upload in flight for 90s, writes at 30s and 100s", writer: []string{"sleep:30s", "put", "sleep:70s", "put"}, slowFirst: 90 * time.Second, horizon: 520 * time.Second},
